@@ -202,9 +202,13 @@ fn end_to_end(ctx: &Ctx, sink: &mut Sink, n: usize, rng: &mut Rng) {
     for k in 0..n {
         let len = rng.range(0, 60);
         let input = random_input(rng, len);
-        let (flag, delim): (Vec<&str>, Option<u8>) = match k % 3 {
+        // -0 and -d together: the one given last decides the delimiter
+        let (flag, delim): (Vec<&str>, Option<u8>) = match k % 6 {
             0 => (vec!["-0"], Some(0)),
             1 => (vec!["-d", "a"], Some(b'a')),
+            2 => (vec!["-0", "-d", "a"], Some(b'a')),
+            3 => (vec!["-d", "a", "-0"], Some(0)),
+            4 => (vec!["-0", "-d", "\\n"], Some(b'\n')),
             _ => (vec![], None),
         };
         let r = crate::recorder::run_xargs(ctx, &flag, &[], &input, &[]);
